@@ -4,6 +4,7 @@
 // histories and allocators; all ordered pairs of V x all pairs of realisations are compared.
 // Oracle: a==b  <=>  reference value equality (objects order-insensitive, number kinds and bit
 // patterns distinguished); a!=b is the negation; symmetry; reflexivity; transitivity on triples.
+#include <cmath>
 #include <memory>
 
 #include "common/families.hpp"
@@ -510,6 +511,62 @@ int main(int argc, char** argv) {
       }
       return;
     }
+    if (f.name[1] == '5') {
+      using N = PoolDoc::NodeType;
+      PoolDoc holder;
+      auto& al = holder.GetAllocator();
+      // the node under test
+      std::vector<N> nodes;
+      {
+        nodes.emplace_back(kNull);
+        nodes.emplace_back(true);
+        nodes.emplace_back(false);
+        for (int64_t v : {(int64_t)0, (int64_t)1, (int64_t)-1, (int64_t)7, (int64_t)INT32_MAX, (int64_t)INT32_MIN, (int64_t)1 << 31, (int64_t)1 << 32, (int64_t)1 << 53, INT64_MAX, INT64_MIN}) nodes.emplace_back(v);
+        for (uint64_t v : {(uint64_t)0, (uint64_t)7, (uint64_t)UINT32_MAX, (uint64_t)1 << 63, UINT64_MAX}) nodes.emplace_back(v);
+        for (double v : {0.0, -0.0, 1.0, 1.5, 7.0, -7.0, 4294967296.0, 9223372036854775808.0, 1e300, std::nan(""), HUGE_VAL, -HUGE_VAL}) nodes.emplace_back(v);
+        nodes.emplace_back("", 0, al);
+        nodes.emplace_back("a", 1, al);
+        nodes.emplace_back("1", 1, al);
+        nodes.emplace_back("true", 4, al);
+        {
+          N a;
+          a.SetArray();
+          nodes.push_back(std::move(a));
+          N o;
+          o.SetObject();
+          nodes.push_back(std::move(o));
+        }
+        while (nodes.size() < 40) nodes.emplace_back((int64_t)nodes.size());
+      }
+      const N& n = nodes[idx];
+      ref::Value rn = sc::to_ref(n);
+      ctx.nontriv();
+      if (ctx.want_sample) ctx.sample(ref::show(rn));
+      auto one = [&](bool got_eq, bool got_ne, const N& as_node, const char* tname) {
+        ctx.eval();
+        bool def = n == as_node;
+        bool want = ref::equal(rn, sc::to_ref(as_node));
+        if (got_eq != def || got_eq != want)
+          ctx.violation("eq_scalar", "eq_scalar_overload", ref::show(rn), "%s == (%s)%s is %d, but node == NodeType(scalar) is %d and value equality is %d", ref::show(rn).c_str(), tname, ref::show(sc::to_ref(as_node)).c_str(), (int)got_eq, (int)def,
+                        (int)want);
+        if (got_ne == got_eq) ctx.violation("ne_not_negation", "eq_ne_not_negation", ref::show(rn), "operator!= is not the negation of operator== for a %s scalar", tname);
+      };
+      for (bool v : {true, false}) one(n == v, n != v, N(v), "bool");
+      for (int v : {0, 1, -1, 7, INT32_MAX, INT32_MIN}) one(n == v, n != v, N(v), "int");
+      for (uint32_t v : {0u, 1u, 7u, (uint32_t)INT32_MAX + 1u, UINT32_MAX}) one(n == v, n != v, N(v), "uint32_t");
+      for (int64_t v : {(int64_t)0, (int64_t)-1, (int64_t)7, (int64_t)1 << 31, (int64_t)1 << 32, (int64_t)1 << 53, INT64_MAX, INT64_MIN}) one(n == v, n != v, N(v), "int64_t");
+      for (uint64_t v : {(uint64_t)0, (uint64_t)7, (uint64_t)UINT32_MAX, (uint64_t)1 << 53, (uint64_t)1 << 63, UINT64_MAX}) one(n == v, n != v, N(v), "uint64_t");
+      for (float v : {0.0f, -0.0f, 1.0f, 1.5f, 7.0f, -7.0f, 4294967296.0f, std::nanf(""), HUGE_VALF}) one(n == v, n != v, N(v), "float");
+      for (double v : {0.0, -0.0, 1.0, 1.5, 7.0, -7.0, 4294967296.0, 9223372036854775808.0, 1e300, std::nan(""), HUGE_VAL, -HUGE_VAL}) one(n == v, n != v, N(v), "double");
+      if (n.IsString())
+        for (const char* sv : {"", "a", "1", "true", "ab"}) {
+          ctx.eval();
+          bool got = n == StringView(sv), ne = n != StringView(sv);
+          bool want = rn.s == sv;
+          if (got != want || ne == got) ctx.violation("eq_scalar", "eq_scalar_overload", ref::show(rn), "%s == StringView(\"%s\") is %d, != is %d", ref::show(rn).c_str(), sv, (int)got, (int)ne);
+        }
+      return;
+    }
     if (f.name[1] == '4') {
       static const char* wn[4] = {"parsed", "parsed+maps", "api-reversed", "deep-copy(freeing alloc)"};
       static const int var5[5] = {0, 1, 2, 3, 5};
@@ -592,7 +649,13 @@ int main(int argc, char** argv) {
   f4.group = "E4";
   f4.chunk = 8;
   f4.rule = "objects of EVERY size n in 0..130 and 255..257, 511..513, 1023..1025 (keys k0..): all ordered pairs over 5 variants (base, reversed, rotated by 7, last value changed, last member dropped) x 16 pairs of realisations (parsed / with lookup maps / API-built in reverse order / deep copy into a freeing-allocator document), and arrays of the same sizes (base, last element changed)";
-  std::vector<vr::Family> fams = {f1, f2, f3, f4};
+  vr::Family f5;
+  f5.name = "E5_scalar_overloads";
+  f5.count = 40;
+  f5.group = "E5";
+  f5.chunk = 4;
+  f5.rule = "node == scalar for the C++ types the overload accepts (bool, int, uint32_t, int64_t, uint64_t, float, double, StringView): 40 nodes of every kind (integers around 0 / 2^31 / 2^32 / 2^53 / 2^63 / extremes, doubles incl. +-0.0, integral values, NaN, infinities, strings, empty containers, null, booleans) x 60 scalars: the result must be that of node == NodeType(scalar) and of reference value equality with number kinds distinguished, != its negation";
+  std::vector<vr::Family> fams = {f1, f2, f3, f4, f5};
   if (args.replay) return R.replay_one(fams, check);
   for (auto& f : fams) R.run(f, check);
   return R.finish();
